@@ -65,9 +65,9 @@ HasDel(s, d, v) == Pos(s.deleg[d][v])
 PayIfDel(s, d, v) == IF HasDel(s, d, v) THEN PayRewards(s, d, v) ELSE s
 
 AllValSeq(s) == [i \in 1..Cardinality(Vals(s)) |-> ValName(i - 1)]
-StakeTypes == {"delegate", "undelegate", "redelegate", "cancel"}
+StakeTypes == {"delegate", "undelegate", "redelegate", "cancel", "ibc"}   \* grant types ("ibc": ICS-20 transfer over channel-0)
 TypeOf(m) == CASE m = "delegate" -> "delegate" [] m = "undelegate" -> "undelegate"
-               [] m = "redelegate" -> "redelegate" [] m = "cancelUnbonding" -> "cancel" [] OTHER -> "-"
+               [] m = "redelegate" -> "redelegate" [] m = "cancelUnbonding" -> "cancel" [] m = "ibcTransfer" -> "ibc" [] OTHER -> "-"
 ApproveTypes == {"delegate", "undelegate"}    \* the types the harness passes to approve/revoke
 
 \* the Cosmos-native effect of a *successful* precompile call (the native message's meaning)
@@ -118,21 +118,20 @@ Effect(s, o, x, c, g, operOf) ==
                                           THEN BigSub(@[t], o.amt) ELSE @[t]]]
       [] OTHER -> s
 
-SpendMethods == {"delegate", "undelegate", "redelegate", "cancelUnbonding"}
-OwnerMethods == SpendMethods \cup {"withdrawRewards", "claimRewards", "setWithdrawAddress", "withdrawCommission", "ibcTransfer"}
+StakeSpend   == {"delegate", "undelegate", "redelegate", "cancelUnbonding"}
+SpendMethods == StakeSpend \cup {"ibcTransfer"}
+OwnerMethods == SpendMethods \cup {"withdrawRewards", "claimRewards", "setWithdrawAddress", "withdrawCommission"}
 
 \* C04: what must be true of a *successful* state-changing call; returns the broken clauses
 AuthProblems(s, o, x, c, g) ==
     (IF o.m \in OwnerMethods /\ x \notin {g, c} THEN {"acted-for-third-party"} ELSE {})
-    \* no ICS-20 grant is ever set up in these scenarios: a transfer by a caller that is not the signer has none
-    \cup (IF o.m = "ibcTransfer" /\ c # g THEN {"spend-without-live-grant"} ELSE {})
     \cup
     (IF o.m \in SpendMethods /\ c # g /\ x \in Accts(s)
      THEN \* the grant from the signer to the immediate caller for this message type
           LET t  == TypeOf(o.m)
               gr == IF c \in DOMAIN s.grants[g] THEN s.grants[g][c][t] ELSE "none"
               vs == IF c \in DOMAIN s.grantVals[g] THEN s.grantVals[g][c][t] ELSE <<>>
-              vdst == IF o.m = "redelegate" THEN ValName(o.val2) ELSE ValName(o.val) IN
+              vdst == IF o.m = "ibcTransfer" THEN "channel-0" ELSE IF o.m = "redelegate" THEN ValName(o.val2) ELSE ValName(o.val) IN
           IF gr \in {"none", "expired", "other"} THEN {"spend-without-live-grant"}
           ELSE IF gr # "unl" /\ BigLT(gr, o.amt) THEN {"grant-overspent"}
           ELSE IF \A j \in 1..Len(vs) : vs[j] # vdst THEN {"grant-does-not-cover-validator"} ELSE {}
@@ -285,7 +284,7 @@ Flush(ms) ==
 
 \* does the code accept this precompile call? (authorization as written in precompiles/*)
 CodeAccepts(s, o, x, c, g, operOf) ==
-    CASE o.m \in SpendMethods ->
+    CASE o.m \in StakeSpend ->
            /\ (x = c \/ x = g)
            /\ (c = g \/ (c \in DOMAIN s.grants[g] /\
                  LET gr == s.grants[g][c][TypeOf(o.m)] IN gr = "unl" \/ (gr \notin {"none", "expired", "other"} /\ BigLE(o.amt, gr))))
@@ -293,7 +292,10 @@ CodeAccepts(s, o, x, c, g, operOf) ==
            /\ (o.m \in {"undelegate", "redelegate"} => BigLE(o.amt, s.deleg[x][ValName(o.val)]))
            /\ (o.m = "cancelUnbonding" => BigLE(o.amt, s.ubd[x][ValName(o.val)]))
            /\ Pos(o.amt)
-      [] o.m = "ibcTransfer" -> c = g /\ x = g /\ Pos(o.amt) /\ BigLE(o.amt, s.bank[x])
+      [] o.m = "ibcTransfer" ->
+           /\ (x = c \/ x = g) /\ Pos(o.amt) /\ BigLE(o.amt, s.bank[x])
+           /\ (c = g \/ (c \in DOMAIN s.grants[g] /\
+                 LET gr == s.grants[g][c]["ibc"] IN gr = "unl" \/ (gr \notin {"none", "expired", "other"} /\ BigLE(o.amt, gr))))
       [] o.m \in {"withdrawRewards"} -> (x = c \/ x = g) /\ HasDel(s, x, ValName(o.val))
       [] o.m \in {"claimRewards", "setWithdrawAddress"} -> (x = c \/ x = g)
       [] o.m = "withdrawCommission" -> (x = c \/ x = g) /\ x \in DOMAIN operOf /\ Pos(s.commission[operOf[x]])
@@ -310,9 +312,11 @@ ApproveStep(s, o, g, e, t) ==
          [] o.m = "approve" /\ BigIsZero(o.amt)   -> IF cur \in {"none"} THEN [s |-> s, ok |-> FALSE] ELSE [s |-> set("none"), ok |-> TRUE]
          [] o.m = "approve"                        -> [s |-> set(o.amt), ok |-> TRUE]
          [] o.m = "revoke"                         -> IF cur \in {"none"} THEN [s |-> s, ok |-> FALSE] ELSE [s |-> set("none"), ok |-> TRUE]
-         [] o.m = "increaseAllowance"              -> IF ~lim THEN [s |-> s, ok |-> FALSE] ELSE [s |-> set(BigAdd(cur, o.amt)), ok |-> TRUE]
-         [] o.m = "decreaseAllowance"              -> IF ~lim \/ BigLT(cur, o.amt) THEN [s |-> s, ok |-> FALSE]
-                                                      ELSE [s |-> set(IF BigEq(cur, o.amt) THEN "none" ELSE BigSub(cur, o.amt)), ok |-> TRUE]
+         \* an unlimited grant is left alone (success); a grant decreased to exactly zero is kept with limit 0
+         [] o.m = "increaseAllowance"              -> IF cur = "unl" THEN [s |-> s, ok |-> TRUE] ELSE IF ~lim THEN [s |-> s, ok |-> FALSE]
+                                                      ELSE [s |-> set(BigAdd(cur, o.amt)), ok |-> TRUE]
+         [] o.m = "decreaseAllowance"              -> IF cur = "unl" THEN [s |-> s, ok |-> TRUE] ELSE IF ~lim \/ BigLT(cur, o.amt) THEN [s |-> s, ok |-> FALSE]
+                                                      ELSE [s |-> [s EXCEPT !.grants[g][e][t] = BigSub(cur, o.amt)], ok |-> TRUE]
 ApproveFamily == {"approve", "revoke", "increaseAllowance", "decreaseAllowance"}
 MApprove(s, o, c, g) ==
     LET e  == Named(o.grantee, c)
@@ -321,7 +325,7 @@ MApprove(s, o, c, g) ==
     IN IF e = g \/ e \notin DOMAIN s.grants[g] THEN [s |-> s, ok |-> FALSE] ELSE r2
 
 LateAuthzFailure(s, o, c, g) ==
-    /\ o.m \in SpendMethods /\ c # g /\ c \in DOMAIN s.grantVals[g]
+    /\ o.m \in StakeSpend /\ c # g /\ c \in DOMAIN s.grantVals[g]
     /\ LET vs == s.grantVals[g][c][TypeOf(o.m)]
            vdst == IF o.m = "redelegate" THEN ValName(o.val2) ELSE ValName(o.val) IN
        \A j \in 1..Len(vs) : vs[j] # vdst
